@@ -65,6 +65,12 @@ def check(reg, tier):
     _rotation(reg, "cylinder", triaxial=False)
     from contracts import kernel_c
     kernel_c.orientation_clauses(reg, PROP, tier)
+    # jitter distributions: absolute width, centred on zero, clipped to the parameter's own limits
+    from contracts import c02
+    from vp.core import adopt
+    for kind in ("gaussian", "uniform"):
+        adopt(reg, c02._dist, "C02", args=(kind, False))
+    adopt(reg, c02._degenerate, "C02", only=".absolute")
     reg.assume("sin and cos are uninterpreted reals constrained only by sin^2+cos^2=1 at each angle")
     reg.assume("jitter distribution centred on 0 for absolute-width parameters and orientation "
                "parameters inactive for 1-D data: contracts C10.pop.degenerate_single_point.*.abs.* and "
